@@ -80,6 +80,12 @@ CHECKS = {
         text='For every complete line up to length 4 (thorough 6) over {blank a quote dquote backslash | ; & > $ * ( ) {} the plans of the -c/prompt path and of the script/function/source path (after the positional-parameter pass) must be identical: list structure, argv, redirections, assignments, background flag. Bounded line sets from C01, C03, C04 and C10-C12 (about 240 lines, thorough about 1300) are run by the real binary through -c, a script file, a function body and a sourced file and compared with the -c run on helper records, created files, output and exit status.',
         note='Lines without positional parameters and newlines; incomplete lines are skipped; the interactive prompt entry point is not driven by this check.',
         ref='DESIGN.md §4 C16'),
+    'C17': dict(
+        engine='E2 explicit-state BFS over the alias table on the real binary (differential oracle)',
+        technique='explicit-state model checking of the alias table (49 states, every operation from every state, thorough: to the fixpoint) on the real binary with a differential oracle: a use must behave like the textually substituted line in a fresh alias-free shell',
+        text='Two names (one with . and -) x six values (option, double-quoted blank, single-quoted word, self reference, reference to the other alias, pipeline): every define / redefine (both quote kinds) / unalias is executed from every table state (quick: BFS depth 2 reaching all 49 states; thorough: fixpoint); after each operation the uses at line start, after |, after ;, after && and as a non-first word are executed and must equal the substituted line run without aliases (records and status; self/mutual references must not loop), the `alias` listing fed back to a fresh shell must recreate the same table and the same behaviour, `alias NAME` prints one definition, `unalias NAME` removes exactly NAME.',
+        note='Names and values are the bound; record order inside a pipeline and the order of the listing are not compared.',
+        ref='DESIGN.md §4 C17'),
     'C19': dict(
         engine='E1 bounded-exhaustive input sweep (in-process) + real binary',
         technique='bounded-exhaustive enumeration of all expression trees / all strings over the arithmetic alphabet against an exact reference evaluator (differential oracle, no sampling)',
